@@ -509,6 +509,27 @@ pub fn run_auth(blocks: &[ABlock], a: &AAuth, limits: (u64, u64), keys: &Keys, r
     r.unwrap_or(ARun { outcome: Outcome::Panic, facts: None, iterations: 0 })
 }
 
+/// Same as run_auth, but the authorizer that is evaluated is a clone of the built one.
+pub fn run_auth_cloned(blocks: &[ABlock], a: &AAuth, limits: (u64, u64), keys: &Keys, rng: &mut Rng) -> Outcome {
+    let r = std::panic::catch_unwind(std::panic::AssertUnwindSafe(|| {
+        let token = match build_token(blocks, keys, rng) {
+            Ok(t) => t,
+            Err(e) => return Outcome::Other(format!("build: {:?}", e)),
+        };
+        let ab = match build_authorizer(a, keys, limits) {
+            Ok(x) => x,
+            Err(e) => return Outcome::Other(format!("abuild: {:?}", e)),
+        };
+        let az = match ab.build(&token) {
+            Ok(x) => x,
+            Err(e) => return Outcome::Other(format!("load: {:?}", e)),
+        };
+        let mut c = az.clone();
+        outcome_of(&c.authorize())
+    }));
+    r.unwrap_or(Outcome::Panic)
+}
+
 pub fn g_acase(blocks: &[ABlock], a: &AAuth, limits: (u64, u64), run: &ARun) -> G {
     // one symbol table for canonical literal order; strings in byte order
     let mut strings = BTreeSet::new();
